@@ -303,12 +303,14 @@ int AsmContext::assemble()
           //token_type2 = tokens_get(asm_context, token2, TOKENLEN);
           int ptr = 0;
           int ch = '\n';
+          bool in_string = false;
 
           while (true)
           {
             ch = tokens_get_char(this);
             if (ch == EOF || ch == '\n') break;
-            if (ch == '\t') { ch = ' '; }
+            if (ch == '"') { in_string = !in_string; }
+            if (ch == '\t' && !in_string) { ch = ' '; }
             if (ch == '*' && ptr > 0 && token2[ptr - 1] == '/')
             {
               macros_strip_comment(this);
